@@ -286,6 +286,112 @@ func runCase(dir string, n int, line string) (res string) {
 				}
 				out = append(out, "call=ok "+ps)
 			}
+		case "stale":
+			// a call under a context with a short deadline that completes well within it; the connection then sits idle until that
+			// deadline has passed; then a call under context.Background() itself (the scenario watchdog bounds it)
+			ms := strings.Split(f[1], ",")
+			var got []string
+			for i, m := range ms {
+				var raw json.RawMessage
+				var err error
+				if i == 0 {
+					dctx, dcancel := context.WithTimeout(ctx, 300*time.Millisecond)
+					err = conn.Call(dctx, string(vt.Unhex(m)), nil, &raw)
+					dcancel()
+					time.Sleep(450 * time.Millisecond)
+				} else {
+					err = conn.Call(context.Background(), string(vt.Unhex(m)), nil, &raw)
+				}
+				if err != nil {
+					got = append(got, classify(err))
+				} else if raw == nil {
+					got = append(got, "N")
+				} else {
+					got = append(got, "R"+vt.Hx(raw))
+				}
+			}
+			out = append(out, "win="+strings.Join(got, ","))
+		case "reconnect2":
+			// the connection is closed (twice: a deferred Close plus an explicit one is common), then two new connections are used
+			// side by side: each must receive the replies to its own calls
+			conn.Close()
+			conn.Close()
+			ms := strings.Split(f[1], ",")
+			var cs [2]*varlink.Connection
+			var cerr error
+			for k := range cs {
+				if strings.HasPrefix(transport, "proxy") {
+					cs[k], cerr = varlink.NewConnection(ctx, "unix:"+fmt.Sprintf("%s/p%d", dir, n))
+				} else if transport == "bridge" {
+					cs[k], cerr = varlink.NewBridgeWithStderr(os.Getenv("VERIF_RELAY")+" "+strings.TrimPrefix(addr, "unix:"), io.Discard)
+				} else {
+					cs[k], cerr = varlink.NewConnection(ctx, addr)
+				}
+				if cerr != nil {
+					break
+				}
+			}
+			var got []string
+			if cerr != nil {
+				got = append(got, "connecterr")
+			} else {
+				for i, m := range ms {
+					var raw json.RawMessage
+					if err := cs[i%2].Call(cctx, string(vt.Unhex(m)), nil, &raw); err != nil {
+						got = append(got, classify(err))
+					} else if raw == nil {
+						got = append(got, "N")
+					} else {
+						got = append(got, "R"+vt.Hx(raw))
+					}
+				}
+				cs[1].Close()
+				conn = cs[0]
+			}
+			out = append(out, "win="+strings.Join(got, ","))
+		case "window":
+			// pipelined use of one connection with a sliding window of two calls in flight:
+			// Send m0; Send m1; receive; Send m2; receive; ... ; receive - with a pause before every receive, so that the
+			// replies of both outstanding calls are already in the client's read buffer when the next Send happens
+			ms := strings.Split(f[1], ",")
+			type rf = func(context.Context, interface{}) (uint64, error)
+			var pending []rf
+			var got []string
+			send := func(m string) bool {
+				r, err := conn.Send(cctx, string(vt.Unhex(m)), nil, 0)
+				if err != nil {
+					got = append(got, "senderr:"+classify(err))
+					return false
+				}
+				pending = append(pending, r)
+				return true
+			}
+			recvOne := func() {
+				time.Sleep(60 * time.Millisecond)
+				var raw json.RawMessage
+				r := pending[0]
+				pending = pending[1:]
+				if _, err := r(cctx, &raw); err != nil {
+					got = append(got, classify(err))
+				} else if raw == nil {
+					got = append(got, "N")
+				} else {
+					got = append(got, "R"+vt.Hx(raw))
+				}
+			}
+			ok := true
+			for i, m := range ms {
+				if ok = send(m); !ok {
+					break
+				}
+				if i >= 1 {
+					recvOne()
+				}
+			}
+			for ok && len(pending) > 0 {
+				recvOne()
+			}
+			out = append(out, "win="+strings.Join(got, ","))
 		case "upcall":
 			// the same call through Connection.Upgrade: an error reply must arrive as the same error value
 			recv, err := conn.Upgrade(cctx, string(vt.Unhex(f[1])), hs.ParseValue(f[2]))
